@@ -100,6 +100,10 @@ C18_reprobe(di, got) ==
     \A i \in DOMAIN got : (got[i].op = "reprobe" /\ \E x \in DOMAIN di.hit : di.hit[x] = got[i].key) =>
         (~got[i].invoked /\ got[i].ok /\ got[i].val = di.names[got[i].key][1])
 
+\* C16: identifiers are fresh - pairwise distinct over every document finished in the process, also when documents are finished concurrently
+C16_ids(got) == \A i \in DOMAIN got : got[i].op = "ids" =>
+                   (Cardinality({got[i].ids[k] : k \in DOMAIN got[i].ids}) = Len(got[i].ids) /\ \A k \in DOMAIN got[i].ids : Len(got[i].ids[k]) = 22)
+
 \* C08: the post-processing stage is bounded by one lookup timeout whatever the resolvers do
 C08_doc(di, out) == out.panic = "" /\ out.t <= di.bound_us
 =============================================================================
